@@ -34,6 +34,12 @@ cell (dict) — "r", "c" (first column for mulrk), "xf" (default 0) plus:
   {"k": "bool", "v": bool}   {"k": "error", "code": byte}        BOOLERR (0x0205)
   {"k": "formula", "cached": ("num", bits) | ("bool", b) | ("err", code) | ("blank",) | ("str", units, wide),
    "rgce": bytes (default: PtgInt 1), "grbit": 0, "chn": 0}      FORMULA (0x0006) [+ STRING (0x0207)]
+   optional: "between": [(typ, body), ...]   records written between FORMULA and STRING (after FORMULA
+             when the result is not a string): SHRFMLA 0x04BC, ARRAY 0x0221, TABLE 0x0236, …; see
+             shrfmla_body / array_body / table_body
+             "cont": [(units, wide), ...]    the string result continues in one CONTINUE (0x003C) record
+             per element (flag byte + characters); STRING's cch counts all characters
+             "no_string": True               omit the STRING record of a string result (malformed)
   {"k": "blank"}                                    BLANK   (0x0201)
   {"k": "raw", "typ": t, "body": bytes}             any record, verbatim
 opts (dict): "cfb": kwargs for cfb_wrap (version, shuffle, …)   "stream_name": "Workbook" (default) | "Book"
@@ -187,12 +193,31 @@ def cell_records(c):
         body = head + formula_value(cached) + struct.pack("<HI", c.get("grbit", 0), c.get("chn", 0))
         body += c.get("tail", struct.pack("<H", len(rgce)) + bytes(rgce))
         out = [(0x0006, body)]
-        if cached[0] == "str":
+        out += [(t, bytes(b)) for t, b in c.get("between", [])]
+        if cached[0] == "str" and not c.get("no_string"):
             units = _units(cached[1])
             wide = _auto_wide(units, cached[2] if len(cached) > 2 else None)
-            out.append((0x0207, xl_unicode(units, wide)))
+            cont = [(_units(u), _auto_wide(_units(u), w)) for u, w in c.get("cont", [])]
+            srec = bytearray(xl_unicode(units, wide))
+            struct.pack_into("<H", srec, 0, len(units) + sum(len(u) for u, _ in cont))
+            out.append((0x0207, bytes(srec)))
+            for u, w in cont:
+                out.append((0x003C, xl_unicode(u, w)[2:]))
         return out
     raise ValueError("unknown cell kind %r" % k)
+
+def shrfmla_body(rf, rl, cf, cl, rgce=PTG_INT_1, cuse=2):
+    """SHRFMLA (0x04BC): RefU (rows u16, cols u8), reserved, cUse, cce, rgce"""
+    return struct.pack("<HHBBBBH", rf, rl, cf, cl, 0, cuse & 0xFF, len(rgce)) + bytes(rgce)
+def array_body(rf, rl, cf, cl, rgce=PTG_INT_1, grbit=0):
+    """ARRAY (0x0221): Ref (rows u16, cols u8), grbit, chn, cce, rgce"""
+    return struct.pack("<HHBBHIH", rf, rl, cf, cl, grbit, 0, len(rgce)) + bytes(rgce)
+def table_body(rf, rl, cf, cl, grbit=0, r_inp=0, c_inp=0):
+    """TABLE (0x0236): Ref, grbit, rwInpRw, colInpRw, rwInpCol, colInpCol"""
+    return struct.pack("<HHBBHHHHH", rf, rl, cf, cl, grbit, r_inp, c_inp, 0, 0)
+def ptg_exp(row, col):
+    """rgce of a cell that belongs to a shared / array formula or a data table"""
+    return struct.pack("<BHH", 0x01, row, col)
 
 def cell_positions(c):
     k = c["k"]
